@@ -27,45 +27,75 @@ def unhex_text(resp):
     return bytes.fromhex(resp.split(" ", 1)[1]).decode("utf-8", "replace") if " " in resp else ""
 
 
-def same_text(model_text, impl_text):
-    """model text with float placeholders against the implementation's text: every placeholder must stand where the
-    implementation printed a float whose bits are the placeholder's (any NaN for a NaN)"""
-    if "F32(" not in model_text and "F64(" not in model_text:
-        return model_text == impl_text
-    mt, it = model_text.split(" "), impl_text.split(" ")
-    if len(mt) != len(it):
-        return False
-    for a, b in zip(mt, it):
-        # a token may carry a line break (last token of a line + first of the next)
-        pa, pb = a.split("\n"), b.split("\n")
-        if len(pa) != len(pb):
-            return False
-        for x, y in zip(pa, pb):
-            m = PH.fullmatch(x)
-            if not m:
-                if x != y:
-                    return False
+def unescape_quoted(text, j):
+    """parse a Rust `{:?}` string literal starting at text[j] == '"'; returns (bytes, index after the closing quote)"""
+    assert text[j] == '"'
+    j += 1
+    buf = []
+    while text[j] != '"':
+        if text[j] == "\\":
+            e = text[j + 1]
+            if e == "u":
+                k = text.index("}", j)
+                buf.append(chr(int(text[j + 3:k], 16))); j = k + 1
                 continue
-            bits = int(m.group(2))
-            try:
-                got = disread.f32_bits(y) if m.group(1) == "32" else disread.f64_bits(y)
-            except (ValueError, ZeroDivisionError):
-                return False
-            if got is None:      # NaN
-                exp_all = (bits >> 23) & 0xff == 0xff and bits & 0x7fffff if m.group(1) == "32" else \
-                    (bits >> 52) & 0x7ff == 0x7ff and bits & ((1 << 52) - 1)
-                if not exp_all:
+            buf.append({"n": "\n", "t": "\t", "r": "\r", "0": "\0", "\\": "\\", '"': '"', "'": "'"}[e]); j += 2
+        else:
+            buf.append(text[j]); j += 1
+    return "".join(buf).encode("utf-8"), j + 1
+
+
+PH_ANY = re.compile(r"F(32|64)\((\d+)\)|S\(([0-9a-f]*)\)")
+
+
+def same_text(model_text, impl_text):
+    """model text with placeholders against the implementation's text: a float placeholder must stand where the
+    implementation printed a float whose bits are the placeholder's (any NaN for a NaN); a string placeholder where the
+    implementation printed a quoted string that un-escapes to the placeholder's bytes"""
+    i = j = 0
+    n = len(model_text)
+    try:
+        while i < n:
+            m = PH_ANY.match(model_text, i)
+            if not m:
+                if j >= len(impl_text) or model_text[i] != impl_text[j]:
                     return False
-            elif got != bits:
-                return False
-    return True
+                i += 1; j += 1
+                continue
+            if m.group(3) is not None:
+                if j >= len(impl_text) or impl_text[j] != '"':
+                    return False
+                got, j = unescape_quoted(impl_text, j)
+                if got != bytes.fromhex(m.group(3)):
+                    return False
+            else:
+                k = j
+                while k < len(impl_text) and impl_text[k] not in " \n":
+                    k += 1
+                tok = impl_text[j:k]
+                bits = int(m.group(2))
+                got = disread.f32_bits(tok) if m.group(1) == "32" else disread.f64_bits(tok)
+                if got is None:      # NaN
+                    is_nan = ((bits >> 23) & 0xff == 0xff and bits & 0x7fffff) if m.group(1) == "32" else \
+                        ((bits >> 52) & 0x7ff == 0x7ff and bits & ((1 << 52) - 1))
+                    if not is_nan:
+                        return False
+                elif got != bits:
+                    return False
+                j = k
+            i = m.end()
+        return j == len(impl_text)
+    except (ValueError, KeyError, IndexError, ZeroDivisionError, AssertionError):
+        return False
 
 
 def equal(a, b):
     """a = implementation response, b = model response"""
     if a.split(" ", 1)[0] != b.split(" ", 1)[0]:
         return C.canon(a) == C.canon(b)
-    if a.startswith("ok ") and b.startswith("ok "):
+    if (a.startswith("ok ") and b.startswith("ok ")) or (a.startswith("exit0 ") and b.startswith("exit0 ")):
+        if a == b:
+            return True
         try:
             return same_text(unhex_text(b), unhex_text(a))
         except ValueError:
